@@ -1111,6 +1111,39 @@ func sameVal(a, b Val) bool {
 	case *LV:
 		y, ok := b.(*LV)
 		return ok && x.Kind == y.Kind && x.Key == y.Key && x.Ref.S == y.Ref.S && x.Idx.S == y.Idx.S
+	case *AV:
+		y, ok := b.(*AV)
+		if !ok || len(x.L) != len(y.L) {
+			return false
+		}
+		for i := range x.L {
+			if x.L[i].S != y.L[i].S {
+				return false
+			}
+		}
+		return true
+	case *SV:
+		y, ok := b.(*SV)
+		if !ok || len(x.F) != len(y.F) {
+			return false
+		}
+		for i := range x.F {
+			if !sameVal(x.F[i], y.F[i]) {
+				return false
+			}
+		}
+		return true
+	case *TV:
+		y, ok := b.(*TV)
+		if !ok || len(x.E) != len(y.E) {
+			return false
+		}
+		for i := range x.E {
+			if !sameVal(x.E[i], y.E[i]) {
+				return false
+			}
+		}
+		return true
 	}
 	return false
 }
